@@ -191,7 +191,7 @@ func TestC05Exhaustive(t *testing.T) {
 		var rec func(prefix []byte) bool
 		rec = func(prefix []byte) bool {
 			if idx%nsh == shard {
-				if !yield(mkCase(string(prefix), []Cfg{{"a", "0", true}}, []string{"/a", "/k", "/7", "/a=", "a", "k"})) {
+				if !yield(mkCase(string(prefix), []Cfg{{"a", "0", true}}, []string{"/a", "/k", "/7", "/a=", "a", "k", "/kk", "/a7", "/gomaxprocs7"})) {
 					return false
 				}
 			}
@@ -216,7 +216,7 @@ func genName(t *rapid.T) string {
 		rapid.StringMatching(`[a-zA-Z0-9_]{0,6}`),
 		rapid.SampledFrom([]string{"", "é", "日本", "\xff", "\xc3", "8", "-8", "a-b", "=", "k=v", "gomaxprocs", "0", "-"}),
 	)
-	keyw := rapid.SampledFrom([]string{"k", "size", "gomaxprocs", "a", "é", "", "k2", "7"})
+	keyw := rapid.SampledFrom([]string{"k", "size", "gomaxprocs", "a", "é", "", "k2", "7", "gomaxprocs2", "gomaxprocs_limit", "sizeclass", "kk"})
 	sb.WriteString(word.Draw(t, "base"))
 	n := rapid.IntRange(0, 5).Draw(t, "nseg")
 	for i := 0; i < n; i++ {
@@ -254,7 +254,7 @@ func Gen(t *rapid.T) Case {
 			File: rapid.Bool().Draw(t, "file"),
 		})
 	}
-	keys := rapid.SliceOfN(rapid.SampledFrom([]string{"/k", "/size", "/a", "/é", "/7", "/k2", "goos", "a", "k", "absent", ".file", ".label", "/gomaxprocs", "gomaxprocs", "/absent"}), 0, 6).Draw(t, "keys")
+	keys := rapid.SliceOfN(rapid.SampledFrom([]string{"/k", "/size", "/a", "/é", "/7", "/k2", "goos", "a", "k", "absent", ".file", ".label", "/gomaxprocs", "gomaxprocs", "/absent", "/gomaxprocs2", "/gomaxprocs_limit", "/gomaxproc", "/sizeclass", "/siz", "/kk"}), 0, 6).Draw(t, "keys")
 	return mkCase(name, cfg, keys)
 }
 
